@@ -94,6 +94,7 @@ type Config struct {
 	Strategy             int             // 0 random walk, 1 PCT priorities, 2 starve-one
 	MaxIdle              time.Duration   // simulated idle time after which S declares the run stuck
 	MaxSteps             uint64          // hard cap on scheduler steps per run
+	MemYields            bool            // scheduling points also before plain shared-memory accesses (woven as YieldMem)
 	MaxYields            uint64          // hard cap on scheduling points passed per run (default: 100000, or half of MaxSteps if that is more; ordinary runs stay below 10000)
 	Record               bool            // keep the human-readable trace
 	Debug                bool            // print trace lines to stderr as they happen
@@ -247,6 +248,18 @@ func (s *Sim) yield(g *G, site string) {
 func Yield(site string) {
 	s := get()
 	if s == nil {
+		return
+	}
+	s.yield(s.me(site), site)
+}
+
+// YieldMem is a possible context switch before a statement that reads or writes memory other
+// goroutines may reach (a field, an element, something behind a pointer) without any
+// synchronisation call of its own. It only acts in runs configured with MemYields: such runs explore
+// interleavings inside what used to be — or what a change has made — an unprotected critical section.
+func YieldMem(site string) {
+	s := cur.Load()
+	if s == nil || !s.cfg.MemYields || s.free.Load() {
 		return
 	}
 	s.yield(s.me(site), site)
